@@ -196,6 +196,14 @@ Example quotes_escaped_refuted :
   exists t out, final_passes t = Ok out /\ quotes_escaped out = false.
 Proof. exists [92; 92; 34]. eexists. split; [vm_compute; reflexivity|vm_compute; reflexivity]. Qed.
 
+(* the white space pass is not confined to bracket expressions: the five characters tab,
+   newline, form feed, carriage return, space written as a literal SEQUENCE a\t\n\f\r b come
+   out as a\s\x0bb - one white-space character and a vertical tab (known finding
+   C01-space-sequence-outside-class) *)
+Example space_sequence_outside_class_rewritten :
+  final_passes ($"a\t\n\f\r b") = Ok ($"a\s\x0bb").
+Proof. vm_compute. reflexivity. Qed.
+
 (* ---------- C19: bounds of the group scan, and termination of the flag-group loop ---------- *)
 Lemma fgbe_aux_bounds rest : forall before i cnt alt idx alt',
   fgbe_aux before rest i cnt alt = Ok (idx, alt') -> (i < idx <= i + length rest)%nat.
